@@ -131,7 +131,8 @@ FRESH = Ty("fresh")       # the result of custom_copy: None or a new tree
 SELFOBJ = Ty("self")      # the return type of __init__
 
 # what a local variable may hold
-VALUE_KINDS = ("int", "bool", "str", "char", "row", "tree", "otree", "chars", "ostr", "obool", "tbl", "list", "fresh")
+VALUE_KINDS = ("int", "bool", "str", "char", "row", "tree", "otree", "chars", "ostr", "obool", "tbl", "list", "fresh",
+               "cplvl", "ctree")
 # None-able kinds and what a non-None value of them is
 OPTION_OF = {"otree": "tree", "ostr": "str", "obool": "bool", "ogs": "gs", "fresh": "tree"}
 
@@ -192,11 +193,11 @@ for _s in SPECS:
 
 RESERVED = set("""fuel fuel' opt tt true false nil Some None Z N Ok Raise catch KeyError IndexError TypeError PyException
 OutOfFuel dict_get not_none is_none zlen pyslice pyindex pysetindex zrange mfor mwhile mblock Continue Break Return
-Fall Leave dfind dmem dset truthy btruthy negb lvl_find copy_rows self
+Fall Leave dfind dmem dset truthy btruthy negb lvl_find copy_rows self mtry zenumerate
 fun let in if then else match with end forall exists Type Prop Set SProp as at return fix cofix struct where using
 for mod""".split()) | {s["coq"] for s in SPECS}
 
-BUILTINS_USED = {"len", "range", "print", "Exception", "KeyError", "GuessStructure"}
+BUILTINS_USED = {"len", "range", "enumerate", "print", "Exception", "KeyError", "GuessStructure"}
 
 
 class Env:
@@ -322,6 +323,8 @@ class FunctionTranslator:
             ty = env.types[e.id]
             if ty.kind == "alias":
                 self.fail(e, "the alias %r of self.parse_tree[-1] may only be subscripted" % e.id)
+            if ty.kind == "tm2alias":
+                self.fail(e, "%r may only be stored through" % e.id)
             if ty.kind in ("paircomp", "dead"):
                 self.fail(e, "%r cannot be used here (%s)" % (e.id, getattr(ty, "why", "result of _find_cp before the None test")))
             return e.id, ty
@@ -603,6 +606,11 @@ class FunctionTranslator:
     def lookup_spec(self, clsname, py):
         return self.specs_by_cls.get(clsname, {}).get(py)
 
+    def expr_helper(self, name):
+        """a private method the translator has no spec for, of the form `def h(self): [docstring] return e`:
+        -> e (it is inlined at its call sites), else None"""
+        return expression_helper(self.cls_node, self.spec["cls"], name)
+
     def call(self, e, env):
         f = e.func
         if isinstance(f, ast.Name) and f.id == "len" and len(e.args) == 1 and not e.keywords:
@@ -625,6 +633,21 @@ class FunctionTranslator:
                 spec = self.lookup_spec(self.spec["cls"], f.attr)
                 if f.attr == self.spec["py"] and self.spec.get("recursive"):
                     spec = self.spec
+                if spec is None and not e.args and not e.keywords and self.expr_helper(f.attr) is not None:
+                    # a private helper `def h(self): return e` is inlined: e is evaluated here, on this self
+                    henv = Env()
+                    henv.types["self"] = env.types["self"]
+                    if "opt" in env.types:
+                        henv.types["opt"] = env.types["opt"]
+                    henv.init_attrs = env.init_attrs
+                    self.inline_depth = getattr(self, "inline_depth", 0) + 1
+                    if self.inline_depth > 3:
+                        self.fail(e, "helpers nested too deeply")
+                    try:
+                        r = self.expr(self.expr_helper(f.attr), henv)
+                    finally:
+                        self.inline_depth -= 1
+                    return r
                 if spec is None or spec.get("init"):
                     self.fail(e, "call of self.%s, which is not (yet) translated" % f.attr)
                 return self.method_call(e, spec, "self", env)
@@ -785,6 +808,16 @@ class FunctionTranslator:
         v = f.value
         if isinstance(v, ast.Name) and v.id == "self":
             spec = self.lookup_spec(self.spec["cls"], f.attr) or (self.spec if f.attr == self.spec["py"] else None)
+            if spec is None and self.expr_helper(f.attr) is not None and f.attr not in getattr(self, "_eff_seen", ()):
+                self._eff_seen = getattr(self, "_eff_seen", ()) + (f.attr,)
+                try:
+                    out = []
+                    for m in ast.walk(self.expr_helper(f.attr)):
+                        if isinstance(m, ast.Call):
+                            out += [x for x in self.call_effects(m) if x not in out]
+                    return out
+                finally:
+                    self._eff_seen = self._eff_seen[:-1]
             return list(spec["state_out"]) if spec else []
         if isinstance(v, ast.Attribute) and isinstance(v.value, ast.Name) and v.value.id == "self":
             if v.attr == "optimizer":
@@ -951,6 +984,15 @@ class FunctionTranslator:
                 and t.value.value.id == "self" and t.value.attr == "parse_tree" and self.const_index(t.slice) == -1
                 and self.spec["cls"] == "GuessStructure")
 
+    def is_tm_setdefault(self, v):
+        """the expression self.tmto_lookup[a].setdefault(b, {})"""
+        return (self.spec["cls"] == "Optimizer" and isinstance(v, ast.Call) and isinstance(v.func, ast.Attribute)
+                and v.func.attr == "setdefault" and len(v.args) == 2 and not v.keywords
+                and isinstance(v.args[1], ast.Dict) and not v.args[1].keys
+                and isinstance(v.func.value, ast.Subscript) and isinstance(v.func.value.value, ast.Attribute)
+                and isinstance(v.func.value.value.value, ast.Name) and v.func.value.value.value.id == "self"
+                and v.func.value.value.attr == "tmto_lookup")
+
     def row_store_target(self, s, t, env):
         """t = alias[i] or self.parse_tree[-1][i] with i in 1, 2 -> the field, or None"""
         if not isinstance(t, ast.Subscript):
@@ -982,6 +1024,9 @@ class FunctionTranslator:
         if len(keys) not in (2, 3):
             self.fail(s, "unsupported store into tmto_lookup")
         self.set_self(s)
+        for n, ty in env.types.items():
+            if ty.kind == "tm2alias":
+                env.alive.discard(n)
         out = [self.as_int(keys[0], env)]
         p, tp = self.value(keys[1], env)
         if tp.kind != "str":
@@ -995,6 +1040,21 @@ class FunctionTranslator:
         if len(s.targets) != 1:
             self.fail(s, "multiple assignment targets")
         t, v = s.targets[0], s.value
+        if isinstance(t, ast.Name) and self.is_tm_setdefault(v):
+            # x = self.tmto_lookup[a].setdefault(b, {}) : the container is created where missing; x is a name
+            # for the path self.tmto_lookup[a][b] (stores through x go to that path)
+            self.set_self(s)
+            self.check_name(s, t.id)
+            base = v.func.value
+            a = self.as_int(base.slice, env)
+            b, tb = self.value(v.args[0], env)
+            if tb.kind != "str":
+                self.fail(s, "tmto_lookup[length] is indexed by strings")
+            x = self.tmp()
+            self.emit("%s <- tm_setdefault2 (o_tmto_lookup self) %s %s ;;" % (x, _paren(a), _paren(b)))
+            env.types[t.id] = Ty("tm2alias", keys=[a, b])
+            env.alive.add(t.id)
+            return self.flush(ind, s, "let self := set_o_tmto_lookup self %s in" % x)
         if isinstance(t, ast.Name):
             if self.is_last_row(v):
                 # an alias of the last row: nothing is copied; the subscript itself may raise
@@ -1033,6 +1093,16 @@ class FunctionTranslator:
                 self.emit("%s <- tm_set2 (o_tmto_lookup self) %s [] ;;" % (x, " ".join(_paren(a) for a in keys)))
                 return self.flush(ind, s, "let self := set_o_tmto_lookup self %s in" % x)
             val, tv = self.expr(v, env)
+            if isinstance(t.value, ast.Name) and t.value.id in env.types and env.types[t.value.id].kind == "tm2alias":
+                if t.value.id not in env.alive:
+                    self.fail(s, "%r no longer denotes its tmto_lookup entry here" % t.value.id)
+                self.set_self(s)
+                if tv.kind != "fresh":
+                    self.fail(s, "what is stored into tmto_lookup must be the result of self.custom_copy(..)")
+                keys = env.types[t.value.id].keys + [self.as_int(t.slice, env)]
+                x = self.tmp()
+                self.emit("%s <- tm_set3 (o_tmto_lookup self) %s %s ;;" % (x, " ".join(_paren(a) for a in keys), _paren(val)))
+                return self.flush(ind, s, "let self := set_o_tmto_lookup self %s in" % x)
             field = self.row_store_target(s, t, env)
             if field:
                 if tv.kind != "int":
@@ -1267,7 +1337,7 @@ class FunctionTranslator:
                 out += self.line(ind, form["tail"])
             return out
         names = [n for n in self.assigned(body + orelse) if n in env.types
-                 and env.types[n].kind not in ("alias", "dead", "paircomp")]
+                 and env.types[n].kind not in ("alias", "dead", "paircomp", "tm2alias")]
         entry = {n: env.types[n].kind for n in names}
         tup, pat = self.state_text(names)
         points = []
@@ -1321,7 +1391,7 @@ class FunctionTranslator:
 
     def loop_names(self, s, env, extra=()):
         names = [n for n in self.assigned(list(s.body)) if n in env.types and n not in extra
-                 and env.types[n].kind not in ("alias", "dead", "paircomp")]
+                 and env.types[n].kind not in ("alias", "dead", "paircomp", "tm2alias")]
         for n in names:
             if n == "self" and not self.may_set_self:
                 self.fail(s, "this function may not change self")
@@ -1333,6 +1403,9 @@ class FunctionTranslator:
         if s.orelse:
             self.fail(s, "for ... else")
         it = s.iter
+        if isinstance(it, ast.Call) and isinstance(it.func, ast.Name) and it.func.id == "enumerate" \
+                and len(it.args) == 1 and not it.keywords and "enumerate" not in env.types:
+            return self.for_enumerate(s, rest, env, k, ind)
         if not isinstance(s.target, ast.Name):
             self.fail(s, "the loop needs a single plain target")
         x = s.target.id
@@ -1366,6 +1439,35 @@ class FunctionTranslator:
         out += _close(self.block(rest, env, k, ind), ")")
         return out
 
+    def for_enumerate(self, s, rest, env, k, ind):
+        """for i, x in enumerate(l)  on a list of characters / strings / ints"""
+        t = s.target
+        if not (isinstance(t, ast.Tuple) and len(t.elts) == 2 and all(isinstance(x, ast.Name) for x in t.elts)
+                and t.elts[0].id != t.elts[1].id):
+            self.fail(s, "enumerate needs two plain targets")
+        i, x = t.elts[0].id, t.elts[1].id
+        for n in (i, x):
+            if n in env.types:
+                self.fail(s, "the loop variable %r is already bound" % n)
+            self.check_name(s, n)
+        l, tl = self.expr(s.iter.args[0], env)
+        if tl.kind in ("chars", "str"):
+            xty = CHAR
+        elif tl.kind == "list" and tl.elem is not None:
+            xty = tl.elem
+        else:
+            self.fail(s, "enumerate of a value of type %s" % tl.kind)
+        names = self.loop_names(s, env, extra=(i, x))
+        tup, pat, body_k, entry, brks = self.loop_k(s, env, names, k)
+        inner = env.copy()
+        inner.types[i], inner.types[x] = INT, xty
+        out = self.flush(ind, s, "mfor (zenumerate %s) (fun '(%s, %s) %s =>" % (_paren(l), i, x, pat))
+        out += _close(self.block(list(s.body), inner, body_k, ind + 2), ")")
+        self.merge(s, env, names, entry, brks)
+        out += self.line(ind, "%s (fun %s =>" % (tup, pat))
+        out += _close(self.block(rest, env, k, ind), ")")
+        return out
+
     def while_(self, s, rest, env, k, ind):
         if s.orelse:
             self.fail(s, "while ... else")
@@ -1387,11 +1489,13 @@ class FunctionTranslator:
         return out
 
     def try_(self, s, rest, env, k, ind):
-        if rest or s.orelse or s.finalbody or len(s.handlers) != 1:
-            self.fail(s, "try is supported as the last statement of its block, with one handler, no else / finally")
+        if s.orelse or s.finalbody or len(s.handlers) != 1:
+            self.fail(s, "try is supported with one handler, no else / finally")
         h = s.handlers[0]
         if not (isinstance(h.type, ast.Name) and h.type.id == "KeyError" and h.name is None and "KeyError" not in env.types):
             self.fail(s, "only `except KeyError:` is supported")
+        if rest:
+            return self.try_assign(s, h, rest, env, k, ind)
         if not (self.terminates(list(s.body)) and self.terminates(list(h.body))):
             self.fail(s, "both the try body and the handler must leave the function on every path")
         for n in list(s.body) + list(h.body):
@@ -1402,6 +1506,37 @@ class FunctionTranslator:
         out = self.line(ind, "catch KeyError (", s)
         out += _close(self.block(list(s.body), env.copy(), k, ind + 1), ") (")
         out += _close(self.block(list(h.body), env.copy(), k, ind + 1), ")")
+        return out
+
+    def try_assign(self, s, h, rest, env, k, ind):
+        """try: x = e   except KeyError: <leaves the function>   ; more statements.
+        Only the evaluation of e is guarded: mtry (binds of e) KeyError (handler) (fun x => rest)"""
+        body = [b for b in s.body if not isinstance(b, ast.Pass)]
+        if not (len(body) == 1 and isinstance(body[0], ast.Assign) and len(body[0].targets) == 1
+                and isinstance(body[0].targets[0], ast.Name)):
+            self.fail(s, "a try followed by more statements must hold a single assignment `x = e`")
+        if not self.terminates(list(h.body)):
+            self.fail(s, "the handler of such a try must leave the function on every path")
+        for n in list(h.body):
+            if self.has_escape_loop(n):
+                self.fail(n, "continue / break inside try")
+        a = body[0]
+        x = a.targets[0].id
+        if self.pre:
+            raise TranslateError("internal: pending binds")
+        text, ty = self.expr(a.value, env)
+        if ty.kind not in VALUE_KINDS:
+            self.fail(a, "a value of type %s cannot be held by a local variable" % ty.kind)
+        binds, self.pre = self.pre, []
+        out = self.line(ind, "mtry (", s)
+        for b in binds:
+            out += self.line(ind + 2, b)
+        out += self.line(ind + 2, "Ok %s) KeyError (" % _paren(text))
+        out += _close(self.block(list(h.body), env.copy(), k, ind + 2), ") (fun %s =>" % x)
+        self.check_name(a, x)
+        env.types[x] = ty
+        env.alive.discard(x)
+        out += _close(self.block(rest, env, k, ind), ")")
         return out
 
     def has_escape_loop(self, n, in_loop=False):
@@ -1506,6 +1641,26 @@ class FunctionTranslator:
 
 
 # ------------------------------------------------------------------ modules
+def expression_helper(cls_node, clsname, name):
+    """`def name(self): [docstring] return e` among the methods of the class that have no spec -> e, else None"""
+    known = {s["py"] for s in SPECS if s["cls"] == clsname} | set(CLASSES[clsname]["untranslated"])
+    if name in known:
+        return None
+    fns = [n for n in cls_node.body if isinstance(n, ast.FunctionDef) and n.name == name]
+    if len(fns) != 1:
+        return None
+    fn = fns[0]
+    a = fn.args
+    if fn.decorator_list or a.vararg or a.kwarg or a.kwonlyargs or a.posonlyargs or a.defaults or fn.returns is not None \
+            or [x.arg for x in a.args] != ["self"] or a.args[0].annotation is not None:
+        return None
+    body = [b for b in fn.body if not (isinstance(b, ast.Expr) and isinstance(b.value, ast.Constant)
+                                       and type(b.value.value) is str) and not isinstance(b, ast.Pass)]
+    if len(body) != 1 or not isinstance(body[0], ast.Return) or body[0].value is None:
+        return None
+    return body[0].value
+
+
 def _parse(repo, rel):
     path = os.path.join(repo, rel)
     with open(path, encoding="utf-8", newline="") as f:
@@ -1536,6 +1691,8 @@ def _check_class(path, cls, clsname):
         if not isinstance(n, ast.FunctionDef):
             raise TranslateError("%s:%d: class %s: unsupported statement in the class body" % (path, n.lineno, clsname))
         if n.name not in known:
+            if expression_helper(cls, clsname, n.name) is not None:
+                continue             # `def h(self): return e`: inlined where a translated method calls it
             raise TranslateError("%s:%d: class %s has a method %s the translator does not know (it could change the "
                                  "modelled state)" % (path, n.lineno, clsname, n.name))
         seen.append(n.name)
